@@ -98,12 +98,14 @@ def worker(k, q, results, tier, lock, logdir):
 
 def main():
     a = sys.argv[1:]
-    slots, tier, override, out = 3, "quick", None, f"{VERIF}/seeded/RESULTS.json"
+    slots, tier, override, out, base = 3, "quick", None, f"{VERIF}/seeded/RESULTS.json", 0
     ids = []
     i = 0
     while i < len(a):
         if a[i] == "--slots":
             slots = int(a[i + 1]); i += 2
+        elif a[i] == "--base":      # first slot number (to run two sweeps side by side)
+            base = int(a[i + 1]); i += 2
         elif a[i] == "--tier":
             tier = a[i + 1]; i += 2
         elif a[i] == "--checks":
@@ -120,7 +122,7 @@ def main():
     logdir = f"{VERIF}/work/sweep"
     os.makedirs(logdir, exist_ok=True)
     results, lock = {}, threading.Lock()
-    ths = [threading.Thread(target=worker, args=(k, q, results, tier, lock, logdir)) for k in range(min(slots, len(ids)))]
+    ths = [threading.Thread(target=worker, args=(base + k, q, results, tier, lock, logdir)) for k in range(min(slots, len(ids)))]
     for t in ths:
         t.start()
     for t in ths:
